@@ -39,6 +39,10 @@ CLAIMED["C06"] = ("Bounded symbolic model checking of cursor/selection invariant
  "Trusted: gosx, paint stubs, terminal stub; pre-state components other than buffer/cursor/mark/mode have their post-init values.",
  "symbolic execution of the real SSA (Readline loop) + SMT (z3) invariant assertions (one inductive step)", "DESIGN.md §5 C06")
 
+CLAIMED["C05"] = ("Bounded symbolic differential model checking of chunking independence: two shells receive the same bytes (concrete context-opening prefix + symbolic bytes), one in a single read, the other under a symbolic chunking and with symbolic co-delivery of type-ahead in the same read as a cursor-position report; outcomes (returned line/error, or buffer/cursor/keymaps at the final wait) are asserted equal on every path.",
+ "Trusted: gosx, paint stubs, terminal stub; timing finer than read boundaries is not modelled (keyseq-timeout is not implemented by the library).",
+ "symbolic execution of the real SSA (two Readline runs per path) + SMT (z3) equivalence assertions", "DESIGN.md §5 C05")
+
 PENDING = {}
 
 NA = {
